@@ -172,9 +172,6 @@ class FnFx:
         return self._cache[key]
 
     def all_events(self):
-        class _S:
-            kind = "stmt"
-
         out = []
         for n in walk_no_nested(self.fi.node):
             if isinstance(n, (ast.stmt,)) and not isinstance(n, (ast.If, ast.For, ast.While, ast.With, ast.Try, ast.FunctionDef, ast.AsyncFunctionDef, ast.ClassDef)):
@@ -223,9 +220,6 @@ class FnFx:
                             evs.append(Ev("LW", recv.id, n, "call of " + callee.name + " (leaves the refresh to its caller)", via=callee))
                     elif isinstance(recv, ast.Name) and fx.refresh_wrapper(callee):
                         evs.append(Ev("RF", recv.id, n, "refresh wrapper " + callee.name))
-            elif isinstance(n, ast.Attribute) and n.attr in fx.tree_methods and not isinstance(n.ctx, ast.Store):
-                # a reference to a dirty method that is not the callee of a call escapes the analysis
-                pass
             if isinstance(n, (ast.Assign, ast.AugAssign, ast.AnnAssign, ast.Delete)):
                 if isinstance(n, ast.Assign):
                     tgs, val = n.targets, n.value
